@@ -1,4 +1,5 @@
 (* C12 — flushed data survives truncation; truncated output is never misread. *)
+From V Require Import XFlate.Index XFlate.Writer XFlate.Mono.
 From V Require Import Base.Prelude Base.Prog Base.ProgThms Flate.Spec Flate.Thms Bzip2.Common Bzip2.SpecR Bzip2.SpecW Bzip2.Thms XFlate.Witness.
 
 (* a DEFLATE decoder given any cut of a stream it would accept delivers a
@@ -38,3 +39,11 @@ Theorem bzip2_cut_is_ueof_witness :
   bz_err (bzip2_decode (firstn 20 (bzip2_encode 1 [65;66]))) = Some EUEOF.
 Proof. exact bz_cut_is_ueof. Qed.
 Print Assumptions bzip2_cut_is_ueof_witness.
+
+(* xflate.Writer only appends: for every compressor, state and call sequence, what the
+   underlying writer held after a prefix of the calls is a prefix of what it holds later *)
+Theorem xflate_output_at_any_moment_is_a_cut_of_the_final_output : forall deflate ops1 ops2 s,
+  exists extra,
+    w_sink (snd (wrun deflate s (ops1 ++ ops2))) = w_sink (snd (wrun deflate s ops1)) ++ extra.
+Proof. exact sink_at_any_moment_is_a_cut. Qed.
+Print Assumptions xflate_output_at_any_moment_is_a_cut_of_the_final_output.
